@@ -13,7 +13,7 @@ CFG = dict(
     coq_sample={"quick": 20, "thorough": 60},
     sig=tl_sig,
     harness_timeout={"quick": 300, "thorough": 3600},
-    rule=TL_RULE_COMMON + "C14 families (panics, Status bounds and exactness, races): panics of 6 dynamic types one after the other on one lane then a normal task; panics on every worker at the same instant while Status() is polled (recorded and unrecorded); exact PendingTask with every worker pinned and k = 1..laneSize*(queueSize+1) accepted tasks, also with one producer per lane blocked in PushTask; queue goroutine parked after take+count (PendingTask = 1); concurrency after panics; 300 small + 50 big stress runs with 30-40% panicking tasks and 1-3 Status() pollers (thorough x10); all under -race, each family in a process of its own",
+    rule=TL_RULE_COMMON + "C14 families (panics, Status bounds and exactness, races): Task values of every dynamic type (pointer, func adapter, structs with slice/map fields, equal comparable values, zero-size values) each started exactly once with LastPanic staying nil; panics of 6 dynamic types one after the other on one lane then a normal task; panics on every worker at the same instant while Status() is polled (recorded and unrecorded); exact PendingTask with every worker pinned and k = 1..laneSize*(queueSize+1) accepted tasks, also with one producer per lane blocked in PushTask; queue goroutine parked after take+count (PendingTask = 1); concurrency after panics; 300 small + 50 big stress runs with 30-40% panicking tasks and 1-3 Status() pollers (thorough x10); all under -race, each family in a process of its own",
     trusted_base=TL_TB,
     assumptions=TL_ASSUME,
 )
